@@ -87,24 +87,7 @@ func C08(tier common.Tier) int {
 
 	// A third variant carries REAL markers (a category before a function, a file-level list, a trailing category): its
 	// own unrestricted run is the reference for it — exclusion and scoped suppression must compose, whatever S is.
-	real := base.Clone()
-	for _, f := range real.Files {
-		var out []e1.IgLine
-		for i, l := range f.Lines {
-			switch {
-			case f.Pkg == e1.PathU && f.Name == "a.go" && strings.HasPrefix(l.Text, "func f1("):
-				out = append(out, e1.IgLine{Text: "// @ignore IMM"})
-			case f.Pkg == e1.PathU && f.Name == "b.go" && i == 0:
-				out = append(out, e1.IgLine{Text: "// @ignore TONL, PKGO01"}, e1.IgLine{Text: ""})
-			case f.Pkg == e1.PathD && l.Text == "\t_ = T{}":
-				l.Text += " // @ignore CTOR"
-			case f.Pkg == e1.PathU && f.Name == "a.go" && strings.HasPrefix(l.Text, "func f2("):
-				out = append(out, e1.IgLine{Text: "// @ignore ALL"})
-			}
-			out = append(out, l)
-		}
-		f.Lines = out
-	}
+	real := e1.IgRealMarked(base)
 	pReal := real.Program()
 	ldReal, err := prog.Load(pReal)
 	if err != nil {
